@@ -502,7 +502,9 @@ func runC01(c *Ctx) {
 		}
 		if ta := methodOf(c.P, sq, "TryAdd"); ta != nil {
 			g := NewGate(c.P)
-			g.Inline = func(_, callee *ssa.Function, depth int) bool { return depth <= 2 && c.P.IsLibFunc(callee) && callee.Pkg != nil && callee.Pkg.Pkg.Path() == pkgPath("lookup") }
+			g.Inline = func(_, callee *ssa.Function, depth int) bool {
+				return depth <= 2 && c.P.IsLibFunc(callee) && callee.Pkg != nil && callee.Pkg.Pkg.Path() == pkgPath("lookup")
+			}
 			s := g.Eval(ta)
 			u := g.U
 			c.Fn(sortedKeys(g.Funcs)...)
